@@ -269,6 +269,10 @@ class PathCtx:
     elif assume_after:
       # keep exploring the rest of the path under the claim so that one
       # failure does not cascade into many.
+      if z3.is_false(simp):
+        # a concretely false claim cannot be assumed (it would make every later obligation of the path vacuous and let the
+        # driver run on with meaningless data): the path ends here
+        raise PathEnd()
       self.assume(claim)
     return status
 
